@@ -40,6 +40,7 @@ InitObs(P) ==
     fl    |-> <<>>,         \* compositions (sets of items) of the scheduler's flushes so far
     ovf   |-> FALSE,        \* a synchronous call has just failed with the runaway-recursion RuntimeError (scheduler reset)
     nflush |-> 0,           \* scheduler flushes of the current outermost call
+    nonlifo |-> FALSE,      \* the program itself left a context out of order (not the innermost open one of its task): C07.lifo is not judged
     clk   |-> 0,            \* virtual clock: advances by t at the start of every segment of task t and by 1 at its end (only task code takes time)
     tm    |-> EmptyFn,      \* AsyncTimer context -> [acc |-> time the property says it was active for, loose |-> the property does not say]
     ncall |-> 0 ]
@@ -349,9 +350,12 @@ Step(S, e) ==
     [] e.e = "Exit" ->
         IF e.a \notin DOMAIN S.ctx THEN [S |-> S, bad |-> {"H.unknown_ctx"}] ELSE
         LET C == S.ctx[e.a] IN
+        LET mineOpen == {c \in DOMAIN S.ctx : S.ctx[c].owner = C.owner /\ S.ctx[c].st \in {"on", "off", "new"}}
+            outOfOrder == \E c \in mineOpen : S.ctx[c].ord > C.ord IN
         IF C.ty \in {"nonasync", "cleanup", "oapi"}        \* no resume / pause observed for these: Enter ... Exit is all there is
-        THEN [S |-> [S EXCEPT !.ctx[e.a].st = IF C.owner \in S.closing THEN "closed_by_close" ELSE "closed"], bad |-> {}]
-        ELSE [S |-> [S EXCEPT !.ctx[e.a].st = IF C.st = "on" THEN "exiting" ELSE "exiting_off"],
+        THEN [S |-> [S EXCEPT !.ctx[e.a].st = IF C.owner \in S.closing THEN "closed_by_close" ELSE "closed",
+                              !.nonlifo = @ \/ outOfOrder], bad |-> {}]
+        ELSE [S |-> [S EXCEPT !.ctx[e.a].st = IF C.st = "on" THEN "exiting" ELSE "exiting_off", !.nonlifo = @ \/ outOfOrder],
               bad |-> IfBad(NoFaultyCtx(P) => C.st = "on", "C06.alt.exit")]
 
     [] e.e = "Resume" ->
@@ -359,7 +363,7 @@ Step(S, e) ==
         LET C == S.ctx[e.a] IN
         [S |-> [S EXCEPT !.ctx[e.a].st = "on", !.cstk = Append(SeqWithout(@, e.a), e.a)],
          bad |-> IfBad(NoFaultyCtx(P) => C.st \in {"new", "off"}, "C06.alt.resume") \cup
-                 IfBad(NoFaultyCtx(P) => e.a \notin Range(S.cstk), "C07.lifo")]
+                 IfBad((NoFaultyCtx(P) /\ ~S.nonlifo) => e.a \notin Range(S.cstk), "C07.lifo")]
 
     [] e.e = "Pause" ->
         IF e.a \notin DOMAIN S.ctx THEN [S |-> S, bad |-> {"H.unknown_ctx"}] ELSE
@@ -368,7 +372,7 @@ Step(S, e) ==
                          !.cstk = SeqWithout(@, e.a),
                          !.assigned = {z \in @ : z[3] # e.a}],
          bad |-> IfBad(NoFaultyCtx(P) => C.st \in {"on", "exiting"}, "C06.alt.pause") \cup
-                 IfBad(NoFaultyCtx(P) => (S.cstk # <<>> /\ Last(S.cstk) = e.a), "C07.lifo")]
+                 IfBad((NoFaultyCtx(P) /\ ~S.nonlifo) => (S.cstk # <<>> /\ Last(S.cstk) = e.a), "C07.lifo")]
 
     [] e.e = "Timer" ->       \* the with-block of AsyncTimer e.a has been left; e.b = its total_time
         IF e.a \notin DOMAIN S.tm THEN [S |-> S, bad |-> {"H.unknown_ctx"}] ELSE
